@@ -1,1 +1,6 @@
 import VtModel.Cache
+import VtModel.Basic
+import VtModel.BBox
+import VtModel.Pyramid
+import VtModel.Geo
+import VtModel.BBoxProto
